@@ -3,7 +3,11 @@ package c13
 // The spacing dimension: the same tree / chain written with every spelling of the blanks
 // outside string literals must give the same value in every position.
 
-import "pgregory.net/rapid"
+import (
+	"strings"
+
+	"pgregory.net/rapid"
+)
 
 // respell draws a spelling for the case; the documented style stays the most frequent.
 func respell(t *rapid.T, c Case) Case {
@@ -166,6 +170,49 @@ func (g *gen) enumEquivalents() []Case {
 							out = append(out, kc)
 						}
 					}
+				}
+			}
+		}
+	}
+	return out
+}
+
+// enumNonASCII: text beyond ASCII before and after operators (== === !== &&) and pipe
+// separators, as literals, map keys, function arguments and piped values, in long chains.
+func (g *gen) enumNonASCII() []Case {
+	var out []Case
+	for env := 0; env < nEnvs; env++ {
+		e := envOf(env)
+		for i, path := range nonASCIIPaths {
+			v, _ := resolve(e, path)
+			same := ls(v.(string), []string{"s", "d"}[i%2])
+			other := ls(nonASCIILits[(i+3)%len(nonASCIILits)], "s")
+			for _, x := range []Expr{
+				p(path), bin("==", p(path), same), bin("!=", p(path), same), bin("==", same, p(path)), bin("==", p(path), other), bin("!=", other, p(path)),
+				bin("&&", bin("==", p(path), same), bin("!=", p("nj"), ls("東京", "d"))), bin("||", bin("!=", p(path), same), bin("==", p("ni"), ls("İstanbul", "s"))),
+				{K: "tern", A: []Expr{bin("==", p(path), same), ls("já", "s"), ls("ne", "s")}}, bin("+", p(path), ls("→é", "d")), bin("+", ls("ß", "s"), p(path)),
+				call("upper", p(path)), call("lower", p(path)), call("len", p(path)), call("greet", p(path)), bin("==", call("upper", p(path)), ls(strings.ToUpper(v.(string)), "s")),
+				call("wrap", p(path), ls("«", "s"), ls("»", "d")),
+			} {
+				for _, strict := range []int{0, 1, 2} {
+					if strict > 0 && !hasEq(x) {
+						continue
+					}
+					xc := x
+					if c, ok := g.finishExpr(Case{Fam: "expr", Env: env, E: &xc}); ok {
+						c.Strict = strict
+						out = append(out, c)
+					}
+				}
+			}
+			for _, st := range [][]Stage{
+				{{F: "default", A: []Arg{{K: "str", V: "Zürich", Q: "s"}}}, {F: "upper"}}, {{F: "upper"}, {F: "trim"}}, {{F: "upper"}, {F: "lower"}, {F: "greet"}},
+				{{F: "wrap", A: []Arg{{K: "str", V: "é", Q: "d"}, {K: "str", V: "東", Q: "s"}}}, {F: "upper"}, {F: "lower"}}, {{F: "joinv", A: []Arg{{K: "str", V: "😀", Q: "s"}, {K: "path", V: "nq"}}}, {F: "len"}},
+				{{F: "greet"}, {F: "wrap", A: []Arg{{K: "path", V: "ni"}, {K: "str", V: "ß, é", Q: "d"}}}, {F: "typ"}}, {{F: "len"}, {F: "add", A: []Arg{{K: "int", V: "1"}}}},
+			} {
+				if fv, cst, err := evalPipe(Case{Fam: "pipe", Env: env, Init: path, Stages: st}, e); cst == convOK && err == nil {
+					c := pipeCase(env, path, st, fv)
+					out = append(out, c, callForm(c))
 				}
 			}
 		}
